@@ -423,7 +423,7 @@ def s5(chk: Check, proj: Project, w) -> None:
 
 
 MANIFEST = {
-    "text": "Decides the structural conditions of slot/fill resolution: the switch of the component key to the outer instance is control-dependent on the slot being filled; fills are read from the ComponentContext of the id found in the context; the fill name's provenance and the default-flag dependence; found/else branches; the required guard dominates rendering; is_filled and fills are the same normalised dict and only None is dropped; registration keys of explicit/implicit fills; the per-fill context layer is popped on every normal path; the dynamic component forwards every RenderInput field. Also: existence of the implicit default fill and safe-HTML return of the deferred renderer; snapshot copy discipline and the position of the captured-variable layer (shared with C03); one source of truth for the context mode. Round 4: the dynamic-component flag comes from a class marker, slot-name escaping keeps Unicode word characters (regex language), the fill-variable layer frame (shared with C03-S12). Round 5: fills are discovered afresh in every render (nothing remembered on the shared NodeList), whitespace-only text between nested components is kept, the dynamic component's outer context is a snapshot (shared with C03-S10).",
+    "text": "Decides the structural conditions of slot/fill resolution: the switch of the component key to the outer instance is control-dependent on the slot being filled; fills are read from the ComponentContext of the id found in the context; the fill name's provenance and the default-flag dependence; found/else branches; the required guard dominates rendering; is_filled and fills are the same normalised dict and only None is dropped; registration keys of explicit/implicit fills; the per-fill context layer is popped on every normal path; the dynamic component forwards every RenderInput field. Also: existence of the implicit default fill and safe-HTML return of the deferred renderer; snapshot copy discipline and the position of the captured-variable layer (shared with C03); one source of truth for the context mode. Round 4: the dynamic-component flag comes from a class marker, slot-name escaping keeps Unicode word characters (regex language), the fill-variable layer frame (shared with C03-S12). Round 5: fills are discovered afresh in every render (nothing remembered on the shared NodeList), whitespace-only text between nested components is kept, the dynamic component's outer context is a snapshot (shared with C03-S10). Round 7: duplicate fills are judged by the raw name; a slot's default content printed from inside its fill is rendered under the slot's own component key (F49).",
     "note": "Not decided: in-order composition, loops, nesting depth, unrendered fills, equality of the three rendering routes as outputs. Trusted: Django renders NodeList children in order.",
     "technique": "static control-dependence / provenance (def-use) checks, dominance, dataclass-derived forwarding table",
 }
